@@ -380,13 +380,13 @@ Proof.
     destruct r1; [apply (IH o1 Ha1 Hi1 H) | inversion H; subst; split; assumption | inversion H; subst; split; assumption].
 Qed.
 
-Definition no_call (x : op) : Prop := match x with OCall _ _ _ => False | _ => True end.
+Definition no_call (x : op) : Prop := match x with OCall _ _ _ | OCallG _ _ _ => False | _ => True end.
 Definition next (o : obj) (x : op) : obj := fst (fst (step es5 o x)).
 Definition final (o : obj) (ops : list op) : obj := fold_left next ops o.
 
 Lemma step_inv : forall o x, o_arr o = true -> inv o -> no_call x -> inv (next o x) /\ o_arr (next o x) = true.
 Proof.
-  intros o x Ha Hi Hx. unfold next. destruct x as [k v | k | k d | | | | m args cbs]; cbn [step]; try contradiction.
+  intros o x Ha Hi Hx. unfold next. destruct x as [k v | k | k d | | | | m args cbs | m args cbs]; cbn [step]; try contradiction.
   - destruct (put es5 o k v false) as [o' r] eqn:P. cbn [fst]. eapply put_inv; eassumption.
   - destruct (delete o k false) as [o' r] eqn:P. cbn [fst]. destruct (delete_inv _ _ _ _ _ Hi P). split; [assumption | congruence].
   - destruct (define_own es5 o k d true) as [o' r] eqn:P. cbn [fst]. eapply define_own_inv; eassumption.
